@@ -29,10 +29,40 @@ package grpcsync
 //@   requires e != nil
 //@   ensures result == e.fired.Load()
 
-// PubSub.Publish hands the message to the subscribers' serializer; it changes only
-// the PubSub itself (frame only; C31's domain, not verified here)
+// PubSub (C31): Publish records the message as the latest one and schedules one
+// delivery per subscriber on the PubSub's own serializer (so deliveries happen in
+// publish order: C31's serializer rules); a scheduled delivery calls OnMessage
+// only if the subscriber is still registered when it runs (nothing is delivered
+// after unsubscription) and with exactly the message it was scheduled for.
+// Subscribe registers the subscriber and, exactly when a message has been
+// published before, schedules one delivery of that latest message; the cancel
+// function removes exactly that subscriber.
 //@ func (*PubSub).Publish
-//@   trusted
+//@   prop C31
+//@   requires ps != nil
+//@   loop 1 invariant ps.msg == msg
+//@   assert at call TrySchedule#1 arg0 == ps.cs && ps.msg == msg
+//@   assert at return end ps.msg == msg
+
+//@ func (*PubSub).Publish$1
+//@   prop C31
+//@   assert at call OnMessage#1 ps.subscribers[s] && recv == s && arg0 == msg
+//@   assert at return 1 !ps.subscribers[s] && ncalls("OnMessage") == 0
+
+//@ func (*PubSub).Subscribe
+//@   prop C31
+//@   requires ps != nil
+//@   assert at call TrySchedule#1 arg0 == ps.cs && ps.msg != nil && msg == ps.msg && ps.subscribers[sub]
+//@   assert at return 1 ps.subscribers[sub] && result0 != nil && (ncalls("TrySchedule") == 1) == (ps.msg != nil)
+
+//@ func (*PubSub).Subscribe$1
+//@   prop C31
+//@   assert at call OnMessage#1 ps.subscribers[sub] && recv == sub && arg0 == msg
+//@   assert at return 1 !ps.subscribers[sub] && ncalls("OnMessage") == 0
+
+//@ func (*PubSub).Subscribe$2
+//@   prop C31
+//@   assert at call delete#1 samemap(arg0, ps.subscribers) && arg1 == sub
 
 // ---- C31: callback serializer ---------------------------------------------------------------------
 //
